@@ -141,7 +141,7 @@ def gen(rng, tier, i):
         sc.net["lock_yield"] = rng.choice([0, 0, 300])   # seeded scheduling points at the asynchronous locks
     tmo = 7200000
     # the (single) destination for reverse listeners, fresh destinations otherwise
-    v6_origin = rng.random() < 0.15 and ck in ("direct", "http", "socks5", "chain-http") and lk not in ("socks4", "socks4a", "reverse")
+    v6_origin = rng.random() < (0.4 if lk == "socks4a" else 0.15) and ck in ("direct", "http", "socks5", "chain-http") and lk not in ("socks4", "reverse") and not (lk == "socks4a" and ck not in ("direct", "socks5"))   # (a SOCKS4a name that is an IPv6 literal has colons: no CONNECT authority can carry it as a name, C03)
     ntun = rng.choice([1, 1, 2, 3, 4, 6]) if not splice else rng.choice([1, 2])
     by_name = rng.random() < 0.3 and lk not in ("socks4", "tproxy")   # a diverted connection only ever has an address
     oip = sc.origin_ip(v6_origin)
